@@ -124,7 +124,7 @@ type mTor struct {
 	urls          []string
 	sad, sam, seq bool
 	started       bool // the persistent flag: set by a started add and Start, cleared by Stop and by stop-after-download firing
-	layout        int // -1: magnet without metadata
+	layout        int  // -1: magnet without metadata
 	h             *torrent.Torrent
 	addedAt       time.Time
 }
